@@ -33,8 +33,8 @@ META = {
                   'of whole operation traces with the implementation + direct predicates'),
     'design_ref': 'DESIGN.md section 4 C18',
     'theorems': ['C18_pure', 'C18_deterministic_region', 'C18_invariant', 'C18_reload', 'C18_overlay_value', 'C18_missing_all',
-                 'C18_environ_untouched', 'C18_priority_table'],
-    'tables': ['LetterCase'],
+                 'C18_environ_untouched', 'C18_priority_table', 'C18_lookup_source_tie'],
+    'tables': ['LetterCase', 'EnvLookupAlg'],
     'level_text': ('Proved in Coq for ALL operation histories (instantiations of arbitrary classes with arbitrary '
                    'arguments, Env.reload at class creation, os.environ edits) over arbitrary environments: the cache '
                    'invariant holds in every reachable state, hence an instantiation with _reload=True resolves every '
